@@ -174,7 +174,9 @@ def run_property(pid, tier, seed):
 
     # ---- canaries: deliberate property-breaking edits of the extracted text must fail the expected obligation
     canary_results = []
-    if not failed:
+    # (failed obligations recorded as known findings do not switch the canaries off: only an unexplained failure does -- the run is a violation then anyway)
+    _kf = [k for k in known_findings() if k['property'] == pid]
+    if not [o for o in failed if not any(k['obligation'] and k['obligation'] in o.name for k in _kf)]:
         for u, r in unit_results:
             if r['status'] != 'ok':
                 continue
